@@ -558,6 +558,7 @@ def run(ctx: RuleContext, p: Program) -> None:
     ctx.try_rule(_cs.rule_cost_sem, p, 'COST-SEM')
     from . import descsem as _ds
     ctx.try_rule(_ds.rule_desc_sem, p, 'DESC-SEM')
+    ctx.try_rule(_ds.rule_field_sem, p, 'FIELD-SEM')
     ctx.not_decided += ['nesting / non-overlap of child spans (runtime)', 'single ownership of every significant token (runtime)',
                         'that every tree leaf is currently in the store (runtime)']
     ctx.assumptions += ['reattach(store) re-binds a whole subtree (COVER-REATTACH)', 'tokens need no reattach (their store is their handle)']
